@@ -5,8 +5,8 @@ import destgen as D
 
 ID = "C36"
 GEN = ["AtNames"]
-THEOREMS = ["C36_push_comment_total", "C36_expanded_comment_kept", "C36_compressed_drops_all",
-            "C36_refuted_compressed_bang", "C36_writer_keeps_comments"]
+THEOREMS = ["C36_push_comment_total", "C36_expanded_comment_kept", "C36_compressed_bang",
+            "C36_bang_example", "C36_writer_keeps_comments"]
 COQ_HEADER = ("From Coq Require Import List NArith ZArith.\nFrom RV Require Import Model.Out Model.OutDest Spec.Reach Run.C36.\n"
               "Import ListNotations.\nLocal Open Scope N_scope.")
 RUN_EXPR = "Run.C36.run"
@@ -55,7 +55,6 @@ def coq_term(c, io):
     return f"(mkCase {D.program_coq(pr)} {D.impl_coq(io[0])} {D.impl_coq(io[1])})"
 
 
-K1 = "known_C36_compressed_bang"
 K2 = "known_C36_lost_in_nsrule"
 K3 = "known_C36_reordered_in_bubbled_atrule"
 
@@ -65,12 +64,12 @@ def has_comment(l):
 
 
 def judge(c, io, r):
-    ce, cc, p1, p2, p3, kb, kns, kre = r
+    ce, cc, p1, p2, p3, kns, kre = r
     corr = None if 2 in (ce, cc) else (ce == 1 and cc == 1)
     pr = c["prog"] or HAND[c["src"]]
     return {"corr": corr,
             "clauses": [("expanded-keeps-loud-comments", p1 == 1, K2 if kns else (K3 if kre else None)),
-                        ("compressed-keeps-bang-comments", p2 == 1, K1 if kb else None),
+                        ("compressed-keeps-bang-comments", p2 == 1, K2 if kns else (K3 if kre else None)),
                         ("silent-comments-dropped", p3 == 1, None)],
             "nontrivial": has_comment(pr["main"]) or any(has_comment(m) for m in pr["mixins"]),
             "tags": ["ok" if io[0][0] == "ok" else io[0][0]],
@@ -86,7 +85,7 @@ def shrink(c):
 
 LEVEL_TEXT = ("proof: in the model of the destinations push_comment never fails and appends the comment to the innermost open "
               "rule / at-rule body / the top level (all frame stacks), the comment arm of handle_item keeps every comment when "
-              "expanded and drops every comment when compressed (so `/*!` comments are lost: refuted clause, known finding F28), "
+              "expanded and, when compressed, exactly the comments whose text starts with `!` (rsass 775eadf; full strength), "
               "and the writer emits every comment item between its delimiters; the model (evaluator + destinations + writer) is "
               "tied to rsass by byte-exact correspondence on generated programs in both styles, and the three clauses are "
               "evaluated in Coq on rsass's output")
